@@ -21,6 +21,17 @@
 use crate::*;
 use crate::verif_support::*;
 
+/// "ALWAYS panics" obligations are `#[kani::should_panic]` harnesses whose real check is the `unreach:` cover after
+/// the call.  Kani reports "no panics, but at least one was expected" as a failure WITHOUT a failed check when the
+/// callee never panics (the driver then says UNDECIDED instead of refuted); this nondeterministic sentinel panic keeps
+/// the should_panic verdict defined, so that a callee that returns normally is reported through the violated
+/// `unreach:` cover of the named obligation.  It constrains nothing: the other branch continues to the call.
+fn always_panics_sentinel() {
+    if kani::any() {
+        panic!("sentinel: not part of the obligation");
+    }
+}
+
 // ------------------------------------------------------------------------------------------------
 // symbolic profile
 // ------------------------------------------------------------------------------------------------
@@ -245,6 +256,7 @@ fn c06_presence_table() {
 #[kani::proof]
 #[kani::should_panic]
 fn c06_a7_excluded_set_panics() {
+    always_panics_sentinel();
     let mp = any_profile_with(true);
     kani::assume(!a7_ok(mp.t1.0, mp.t2.0, mp.t3.0));
     let t: i64 = kani::any();
@@ -571,6 +583,7 @@ fn c06_new_invariant() {
 #[kani::stub(<Quantity as Div<Quantity>>::div, seq_q_div)]
 #[kani::stub(<Time as core::convert::TryFrom<Quantity>>::try_from, conv_abstract)]
 fn c06_new_negative_duration_panics() {
+    always_panics_sentinel();
     let start: State = kani::any();
     let end: State = kani::any();
     let max_vel = Quantity::new(kani::any(), MILLIMETER_PER_SECOND);
@@ -587,6 +600,7 @@ fn c06_new_negative_duration_panics() {
 #[kani::stub(<Quantity as Mul<Quantity>>::mul, havoc_q_mul)]
 #[kani::stub(<Quantity as Div<Quantity>>::div, havoc_q_div)]
 fn c06_new_wrong_units_panics() {
+    always_panics_sentinel();
     let start: State = kani::any();
     let end: State = kani::any();
     let max_vel = Quantity::new(kani::any(), any_unit_small());
